@@ -55,9 +55,12 @@ def plan(tier, seed):
         specs.append(dict(kind='random', sub=k, n=3 + k % 4,
                           steps=5000 if tier == 'thorough' else 400,
                           dynamic=(k % 3 == 2), hashseed=k))
+    # instances beyond truth tables (12-70 variables), see vf/big.py
+    from vf import big
+    specs.extend(big.specs(tier, seed, 'C06'))
     meta = dict(
         rule=RULE,
-        require=['sequences', 'steps', 'quiescent_checks', 'gc_calls',
+        require=['big_histories', 'sequences', 'steps', 'quiescent_checks', 'gc_calls',
                  'gc_freed_nodes', 'node_numbers_reused',
                  'gc_rooted_calls', 'swap_calls', 'cache_entries_watched',
                  'dynamic_history_steps', 'releases_at_count_zero'],
@@ -253,5 +256,8 @@ def _random(ctx, spec, rng, names, dynamic):
 
 
 def run_shard(ctx, spec):
+    if spec['kind'] == 'big':
+        from vf import big
+        return ctx.guard('big', big.run, ctx, spec, case=spec)
     fn = dict(exh=exhaustive, random=random_)[spec['kind']]
     ctx.guard(spec['kind'], fn, ctx, spec, case=spec)
